@@ -1,1 +1,134 @@
-fn main() {}
+//! bvinproc — in-process property checks against the /repo crates.
+//!
+//!   bvinproc <ID> quick|thorough <seed>        prints a JSON array of LayerReports on stdout
+//!   bvinproc <ID> --replay <layer> <file>      file holds the JSON case; prints {"rendered","outcome","detail","sample"}
+//!
+//! Every case is announced (written to $BVERIF_ANNOUNCE/<thread>.json) before it is evaluated,
+//! so that the engine can attribute an abort or stack overflow of this process to a case.
+
+mod c08;
+mod c19;
+mod shell;
+
+use bvcommon::runner::{Ctx, LayerReport, Outcome, Tier, Verdict};
+use std::io::Write;
+
+pub fn announce(layer: &str, case_json: &str) {
+    if let Some(dir) = std::env::var_os("BVERIF_ANNOUNCE") {
+        let tid = rayon::current_thread_index().unwrap_or(999);
+        let p = std::path::Path::new(&dir).join(format!("{tid}.json"));
+        let _ = std::fs::write(p, format!("{{\"layer\":{},\"case\":{}}}", serde_json::to_string(layer).unwrap(), case_json));
+    }
+}
+
+/// run `f` catching panics; a panic becomes Fail with the panic message
+pub fn guarded<F: FnOnce() -> Verdict + std::panic::UnwindSafe>(f: F) -> Verdict {
+    match std::panic::catch_unwind(f) {
+        Ok(v) => v,
+        Err(e) => {
+            let msg = if let Some(s) = e.downcast_ref::<String>() {
+                s.clone()
+            } else if let Some(s) = e.downcast_ref::<&str>() {
+                s.to_string()
+            } else {
+                "panic".to_string()
+            };
+            let loc = LAST_PANIC.with(|l| l.borrow().clone());
+            Verdict::fail(format!("panicked: {msg} @ {loc}"))
+        }
+    }
+}
+
+thread_local! {
+    pub static LAST_PANIC: std::cell::RefCell<String> = const { std::cell::RefCell::new(String::new()) };
+}
+
+fn skip_hashes() -> Vec<u64> {
+    std::env::var("BVERIF_SKIP_HASHES").ok().map(|s| s.split(',').filter_map(|x| x.parse().ok()).collect()).unwrap_or_default()
+}
+
+pub fn is_skipped(rendered: &str) -> bool {
+    let h = bvcommon::runner::hash_str(rendered);
+    SKIP.get_or_init(skip_hashes).contains(&h)
+}
+static SKIP: std::sync::OnceLock<Vec<u64>> = std::sync::OnceLock::new();
+
+fn run_prop(prop: &str, ctx: &Ctx) -> Vec<LayerReport> {
+    match prop {
+        "C08" => c08::run(ctx),
+        "C19" => c19::run(ctx),
+        _ => {
+            eprintln!("bvinproc: unknown property {prop}");
+            std::process::exit(2);
+        }
+    }
+}
+
+fn replay(prop: &str, layer: &str, case: &serde_json::Value) -> Result<(String, Verdict), String> {
+    match prop {
+        "C08" => c08::replay(layer, case),
+        "C19" => c19::replay(layer, case),
+        _ => Err(format!("bvinproc: no replay for {prop}")),
+    }
+}
+
+fn main() {
+    let args: Vec<String> = std::env::args().collect();
+    if args.len() < 4 {
+        eprintln!("usage: bvinproc <ID> quick|thorough <seed> | bvinproc <ID> --replay <layer> <file>");
+        std::process::exit(2);
+    }
+    std::panic::set_hook(Box::new(|info| {
+        let loc = info.location().map(|l| format!("{}:{}", l.file(), l.line())).unwrap_or_default();
+        LAST_PANIC.with(|l| *l.borrow_mut() = loc);
+    }));
+    let threads = std::env::var("BVERIF_THREADS").ok().and_then(|s| s.parse().ok()).unwrap_or(16usize);
+    rayon::ThreadPoolBuilder::new().num_threads(threads).stack_size(8 << 20).build_global().ok();
+    let prop = args[1].clone();
+    if args[2] == "--replay" {
+        let layer = args[3].clone();
+        let text = std::fs::read_to_string(&args[4]).unwrap_or_else(|e| {
+            eprintln!("cannot read case: {e}");
+            std::process::exit(2)
+        });
+        let case: serde_json::Value = serde_json::from_str(&text).unwrap_or_else(|e| {
+            eprintln!("bad case json: {e}");
+            std::process::exit(2)
+        });
+        // run on a thread with the same stack size as the exploration workers
+        let r = std::thread::Builder::new()
+            .stack_size(8 << 20)
+            .spawn(move || replay(&prop, &layer, &case))
+            .unwrap()
+            .join()
+            .unwrap_or_else(|_| Err("replay thread panicked".into()));
+        match r {
+            Ok((rendered, v)) => {
+                let (o, d) = match &v.outcome {
+                    Outcome::Pass => ("pass", String::new()),
+                    Outcome::Fail(d) => ("fail", d.clone()),
+                    Outcome::Skip(d) => ("skip", d.clone()),
+                    Outcome::Inconclusive(d) => ("inconclusive", d.clone()),
+                };
+                println!("{}", serde_json::json!({"rendered": rendered, "outcome": o, "detail": d, "sample": v.sample}));
+            }
+            Err(e) => {
+                eprintln!("{e}");
+                std::process::exit(2);
+            }
+        }
+        return;
+    }
+    let tier = if args[2] == "thorough" { Tier::Thorough } else { Tier::Quick };
+    let seed: u64 = args[3].parse().unwrap_or(1);
+    let mut ctx = Ctx::new(&prop, tier, seed);
+    if let Ok(c) = std::env::var("BVERIF_ACTIVE_CLASSES") {
+        for x in c.split(',').filter(|x| !x.is_empty()) {
+            ctx.active_classes.insert(x.to_string());
+        }
+    }
+    let reports = run_prop(&prop, &ctx);
+    let out = std::io::stdout();
+    let mut o = out.lock();
+    let _ = writeln!(o, "{}", serde_json::to_string(&reports).unwrap());
+}
